@@ -1400,6 +1400,12 @@ func (p *provProfile) checkTruncation(pi *passInfo, nc *v1.NodeClaim, pods []*co
 		}
 	}
 	s.Probe("c19-truncated-nodeclaim-examined")
+	itKeys := map[string]bool{}
+	for _, it := range its {
+		for key := range it.Requirements {
+			itKeys[key] = true
+		}
+	}
 	if os.Getenv("VERIF_DEBUG_PASS") != "" {
 		fmt.Fprintf(os.Stderr, "TRUNC nc=%s reqs=%v\n", nc.Name, nc.Spec.Requirements)
 		for _, it := range its {
@@ -1420,12 +1426,26 @@ func (p *provProfile) checkTruncation(pi *passInfo, nc *v1.NodeClaim, pods []*co
 			continue
 		}
 		compatible := ncAllows(poolReqs, corev1.LabelInstanceTypeStable, u.Name)
-		for key, req := range u.Requirements {
-			if key == corev1.LabelInstanceTypeStable {
-				continue
-			}
-			if req.Operator() == corev1.NodeSelectorOpIn && req.Len() == 1 && (!ncAllows(open, key, req.Values()[0]) || !ncAllows(poolReqs, key, req.Values()[0])) {
-				compatible = false
+		// every requirement of the pool and of the written NodeClaim on a key that instance types define (also Exists /
+		// DoesNotExist on a key this type does not carry); a multi-valued key on the type is not judged (skip the type)
+		for _, reqs := range [][]v1.NodeSelectorRequirementWithMinValues{poolReqs.Spec.Requirements, open.Spec.Requirements} {
+			for _, r := range reqs {
+				if r.Key == corev1.LabelInstanceTypeStable || !itKeys[r.Key] {
+					continue
+				}
+				val := ""
+				if req, ok := u.Requirements[r.Key]; ok {
+					if req.Operator() != corev1.NodeSelectorOpIn || req.Len() != 1 {
+						compatible = false
+						continue
+					}
+					val = req.Values()[0]
+				}
+				one := &v1.NodeClaim{}
+				one.Spec.Requirements = []v1.NodeSelectorRequirementWithMinValues{r}
+				if !ncAllows(one, r.Key, val) {
+					compatible = false
+				}
 			}
 		}
 		if !compatible {
